@@ -807,7 +807,7 @@ def scenario_multifile(exe, mode_arg, payload):
 
 # ------------------------------------------------------------------------------------------------ C10: lexical well-formedness
 WF_LANGS = [('typescript', 'ts', []), ('kotlin', 'kt', ['--java-package', 'com.x']), ('swift', 'swift', []), ('scala', 'scala', ['--scala-package', 'com.x']),
-            ('go', 'go', ['--go-package', 'p']), ('python', 'py', [])]
+            ('go', 'go', ['--go-package', 'p']), ('python', 'py', []), ('scala', 'scala', ['--scala-package', 'x'])]
 # identifiers that are keywords in some target, in every position a name can take (field, variant, struct-variant field, type)
 WF_EXTRA = {
     'kw_fields': '#[typeshare]\npub struct KwFields { pub r#type: u32, pub r#enum: u32, pub r#struct: u32, pub default: u32, pub class: u32, pub from: u32, pub global: u32, '
@@ -823,6 +823,13 @@ WF_EXTRA = {
                      '#[typeshare]\npub struct Str4 { #[serde(rename = "kebab-field")] pub a: u32, #[serde(rename = "dotted.name")] pub b: u32 }\n',
     'generics_nested': '#[typeshare]\npub struct Gen3<A, B> { pub m: HashMap<String, Vec<Option<HashMap<String, Vec<A>>>>>, pub b: Option<Option<B>>, pub arr: [Vec<A>; 3] }\n'
                        '#[typeshare]\n#[serde(tag = "t", content = "c")]\npub enum GenE<T> { A(Vec<T>), B { x: HashMap<String, T> }, C }\n#[typeshare]\npub type GenAl<T> = Vec<HashMap<String, Option<T>>>;\n',
+    'decorated': '#[typeshare(kotlin = "JvmInline")]\npub struct UserId(String);\n#[typeshare(kotlin = "JvmInline", redacted)]\npub struct Secret(String);\n'
+                 '#[typeshare(swift = "Equatable, Hashable", kotlin = "JvmInline")]\npub struct Wrapped(pub u32);\n#[typeshare(redacted)]\npub struct Hidden { pub a: String }\n'
+                 '#[typeshare(swift = "Equatable")]\n#[serde(tag = "t", content = "c")]\npub enum DecE { A(UserId), B { s: Secret } }\n'
+                 '#[typeshare]\npub struct User { pub id: UserId, pub name: String, pub email: Option<String> }\n',
+    'dates': '#[typeshare]\npub struct Booking { pub room: String, pub at: OffsetDateTime, pub seen: Vec<OffsetDateTime> }\n'
+             '#[typeshare]\npub struct Nested { pub occurrences: Vec<OffsetDateTime> }\n#[typeshare]\n#[serde(tag = "t", content = "c")]\npub enum When { At(OffsetDateTime), Never }\n',
+    'dates_nested_only': '#[typeshare]\npub struct Nested { pub occurrences: Vec<OffsetDateTime>, pub m: HashMap<String, OffsetDateTime> }\n',
     'empty_things': '#[typeshare]\npub struct Empty {}\n#[typeshare]\npub struct Unit;\n#[typeshare]\n#[serde(tag = "t", content = "c")]\npub enum OneEmpty { A {}, B(u32) }\n',
 }
 # KNOWN FINDING kf-c10-quote-in-algebraic-variant-rename (known_findings.json): replayed on every run, not part of the search
@@ -915,6 +922,38 @@ def swift_keyword_check(text):
     return None
 
 
+def node_exe():
+    for c in (shutil.which('node'), '/root/.nvm/versions/node/v20.20.2/bin/node'):
+        if c and os.path.exists(c):
+            return c
+    return None
+
+
+def ts_helper_check(text, top):
+    """the executable code typeshare emits for TypeScript - the ReviverFunc / ReplacerFunc helpers - is plain JavaScript inside a typed arrow-function
+    head: with the head's annotations removed, node's parser (`node --check`) must accept it (skipped when no node is installed)"""
+    node = node_exe()
+    if not node:
+        return None
+    js = []
+    for m in re.finditer(r'export const (\w+) = \(key: string, value: unknown\): unknown => \{', text):
+        i, depth = m.end(), 1
+        while i < len(text) and depth:
+            depth += {'{': 1, '}': -1}.get(text[i], 0)
+            i += 1
+        js.append('const %s = (key, value) => {%s;' % (m.group(1), text[m.end():i]))
+    if not js:
+        return None
+    p = os.path.join(top, 'helpers.js')
+    with open(p, 'w') as f:
+        f.write('\n'.join(js) + '\n')
+    pr = subprocess.run([node, '--check', p], capture_output=True, text=True, timeout=30)
+    if pr.returncode != 0:
+        err = [l for l in pr.stderr.splitlines() if 'SyntaxError' in l]
+        return 'node does not parse the generated helper functions: %s' % ((err[0] if err else pr.stderr.strip()[-120:]))
+    return None
+
+
 def wellformed_inputs():
     out = dict(WF_EXTRA)
     base = os.path.join(REPO, 'core', 'data', 'tests')
@@ -952,6 +991,8 @@ def wellformed_case(exe, name, source, lang, ext, largs):
             return 'the generated %s file is not lexically closed: %s' % (lang, m)
         if lang == 'swift':
             return swift_keyword_check(text)
+        if lang == 'typescript':
+            return ts_helper_check(text, top)
         return None
     finally:
         shutil.rmtree(top, ignore_errors=True)
@@ -961,7 +1002,7 @@ def scenario_wellformed(exe, mode_arg, payload):
     """C10 bound: every input of the repository's snapshot corpus (core/data/tests/*/input.rs) + 8 further sources (identifiers that are
     keywords of a target in field / variant / type position, also through serde(rename); doc comments and renamed strings containing quotes,
     backslashes and comment delimiters; deeply nested generics; empty structs and variants) + the sources of other scenarios, for each of the
-    6 languages the run accepts: Python - the generated module must be parsed by CPython's own parser (ast.parse, syntax only); TypeScript,
+    6 languages the run accepts (Scala with a dotted and with a one-segment package name): Python - the generated module must be parsed by CPython's own parser (ast.parse, syntax only); TypeScript,
     Kotlin, Swift, Scala, Go - every comment, string and character literal closed and every (, [, { matched (lexers written for this check;
     NOT a parser: declaration grammar is not checked for these five); Swift - no reserved word declared as a name without backquotes."""
     if mode_arg == 'check':
